@@ -31,7 +31,10 @@ fn errnos_for(call: &str, arg: i64) -> Vec<i32> {
         "opendir" => vec![libc::EIO, libc::EACCES, libc::EMFILE, libc::ESTALE],
         "stat" | "fstat" | "readdir" | "read" | "lseek" => vec![libc::EIO, libc::ESTALE],
         "chmod" | "fchmod" | "futimens" | "utimensat" | "unlink" => vec![libc::EIO, libc::EACCES, libc::ESTALE],
-        "rename" | "link" | "mkdir" => vec![libc::EIO, libc::EACCES, libc::ENOSPC, libc::ESTALE],
+        // EXDEV: the value was staged on another filesystem; EMLINK: the inode's link count is at its limit
+        "rename" => vec![libc::EIO, libc::EACCES, libc::ENOSPC, libc::ESTALE, libc::EXDEV],
+        "link" => vec![libc::EIO, libc::EACCES, libc::ENOSPC, libc::ESTALE, libc::EXDEV, libc::EMLINK],
+        "mkdir" => vec![libc::EIO, libc::EACCES, libc::ENOSPC, libc::ESTALE],
         // errno 0 stands for a SHORT count: the call succeeds but transfers only part of the data
         "write" | "copy_file_range" => vec![libc::EIO, libc::ENOSPC, 0],
         "ftruncate" | "fsync" => vec![libc::EIO, libc::ENOSPC],
@@ -156,6 +159,17 @@ pub fn judge(root: &Path, c: &Case) -> Result<bool, (String, String)> {
         }
         // (3) the directories remain valid in the crash-safety sense
         validity(root, &b, &allowed).map_err(|(s, d)| (format!("c18:{}", s), format!("{}: {}", what(), d)))?;
+        // (3b) validity at every instant, not only at the end: a name that holds (or is about to hold) a
+        // published value is never created empty or truncated in place -- a crash right after such a
+        // call would leave an incomplete value under a key name (recovery paths after a fault included)
+        for e in ev.iter().filter(|e| e.op == 0 && e.idx != u32::MAX && (e.call == "open" || e.call == "openat") && e.ret >= 0) {
+            let fl = e.arg as i32;
+            let name = e.path.rsplit('/').next().unwrap_or("");
+            let published = e.path.starts_with(&*root.to_string_lossy()) && !name.starts_with('.') && !name.is_empty() && !e.path.contains("/.kismet_temp/") && !e.path.contains("/staging/") && !e.path.contains("/TMP/");
+            if published && (fl & libc::O_TMPFILE) != libc::O_TMPFILE && (fl & (libc::O_TRUNC | libc::O_CREAT)) != 0 {
+                return Err(("c18:published-name-written-in-place".into(), format!("{}: the library then opened the published name {} with creation/truncation flags {:#o}: the value under a key name is incomplete until the write finishes", what(), e.path, fl)));
+            }
+        }
         // (4) no temporary file created by the library is left behind
         let temps_after = temp_files(root);
         for t in temps_after.iter().filter(|t| !temps_before.contains(t)) {
